@@ -68,7 +68,7 @@ struct fn
         w.log.push_back(e);
         return e.value;
     }
-    T operator()(hep::multi_channel_point<T> const& p) const
+    T mc(hep::multi_channel_point<T> const& p, hep::projector<T>* proj) const
     {
         auto& w = W<T>();
         sz const k = w.calls++;
@@ -78,10 +78,15 @@ struct fn
         // the event is logged before the weight is requested so that the log shows the true order
         sz const pos = w.log.size();
         w.log.push_back(e);
-        if (e.touched) (void) p.weight();
-        w.log[pos].value = behave<T>(w.behaviour[k % w.behaviour.size()]);
-        return w.log[pos].value;
+        T const v = behave<T>(w.behaviour[k % w.behaviour.size()]);
+        // with distributions the integrand requests the weight through the projector
+        if (e.touched) { if (proj) proj->add(0, p.coordinates()[0], v); else (void) p.weight(); }
+        w.log[pos].value = v;
+        return v;
     }
+    T operator()(hep::multi_channel_point<T> const& p) const { return mc(p, nullptr); }
+    T operator()(hep::multi_channel_point<T> const& p, hep::projector<T>& proj) const { return mc(p, &proj); }
+    T operator()(hep::mc_point<T> const& p, hep::projector<T>& proj) const { (void) proj; return (*this)(p); }
 };
 
 template <typename T>
@@ -188,7 +193,7 @@ static void enumerate(report& r)
 {
     std::string const tn = vf::type_name<T>();
     auto const ex = extremes<T>();
-    std::vector<cfg> cfgs = {{0, 0}, {1, 0}, {1, 1}, {2, 0}, {2, 1}, {2, 2}, {2, 3}, {2, 4}};
+    std::vector<cfg> cfgs = {{0, 0}, {1, 0}, {1, 1}, {2, 0}, {2, 1}, {2, 2}, {2, 3}, {2, 4}, {3, 0}, {3, 1}, {3, 4}};   // kind 3: multi-channel with a distribution
     std::vector<std::vector<T>> const wv = {{T(1), T(1), T(1)}, {T(0), T(1), T(1)}, {T(1), T(0), T(1)}, {T(1), T(1), T(0)}, {T(0), T(0), T(1)}};
     sz const n = 3;
     for (auto const& c : cfgs)
@@ -198,14 +203,14 @@ static void enumerate(report& r)
         sz const dims = 1;
         // per-call alphabet: raw numbers (coordinate; for multi-channel also the channel draw) x behaviour x touch
         std::vector<std::vector<std::uint64_t>> us;
-        if (c.kind == 2) { for (auto a : {ex[0], ex[2]}) for (auto b : ex) us.push_back({a, b}); }
+        if (c.kind >= 2) { for (auto a : {ex[0], ex[2]}) for (auto b : ex) us.push_back({a, b}); }
         else for (auto a : ex) us.push_back({a});
         sz const alpha = us.size() * 6;
         std::vector<sz> idx(n, 0);
         hep::vegas_pdf<T> pdf(dims, 3);
         if (c.variant == 1) { pdf.set_bin_left(0, 1, T(0.125)); pdf.set_bin_left(0, 2, T(0.5)); }
         std::vector<T> weights;
-        if (c.kind == 2) { weights = wv[c.variant]; T s = T(); for (T v : weights) s += v; for (T& v : weights) v /= s; }
+        if (c.kind >= 2) { weights = wv[c.variant]; T s = T(); for (T v : weights) s += v; for (T& v : weights) v /= s; }
         for (;;)
         {
             std::string const id = base + " seq=" + vf::join(idx);
@@ -226,7 +231,9 @@ static void enumerate(report& r)
                 vf::script_engine gen;
                 if (c.kind == 0) (void) hep::plain_iteration(hep::make_integrand<T>(fn<T>(), dims), n, gen);
                 else if (c.kind == 1) (void) hep::vegas_iteration(hep::make_integrand<T>(fn<T>(), dims), n, pdf, gen);
-                else (void) hep::multi_channel_iteration(hep::make_multi_channel_integrand<T>(fn<T>(), dims, map_fn<T>(), dims, 3), n, weights, gen);
+                else if (c.kind == 2) (void) hep::multi_channel_iteration(hep::make_multi_channel_integrand<T>(fn<T>(), dims, map_fn<T>(), dims, 3), n, weights, gen);
+                else (void) hep::multi_channel_iteration(hep::make_multi_channel_integrand<T>(fn<T>(), dims, map_fn<T>(), dims, 3,
+                    hep::make_dist_params<T>(2, T(0), T(1), "d")), n, weights, gen);
                 check_log<T>(r, c, n, dims, &pdf, weights, id);
                 r.distinct(vf::hash_str(id));
                 r.outcome("event log shapes", [&]() { std::string s; for (auto const& e : w.log) s += char('a' + e.kind); return s; }());
